@@ -12,6 +12,12 @@ def _cast_text(value):
     # Excel spells logical values TRUE/FALSE when they are used as text.
     if isinstance(value, (bool, func_xltypes.Boolean)):
         return func_xltypes.Text(str(bool(value)).upper())
+    # Excel's text form of a number carries at most 15 significant digits.
+    number = value.value if isinstance(value, func_xltypes.Number) else value
+    if isinstance(number, float) and number == number \
+            and abs(number) != float('inf'):
+        return func_xltypes.Text(
+            str(func_xltypes.Number(float(format(number, '.15g')))))
     return func_xltypes.Text.cast(value)
 
 
